@@ -51,6 +51,14 @@ SYM = ("a+1", "2*a", "a*b", "6//a", "{k}", "{o.n}+1", "{o}", "a+{k}", "zz+1")
 
 # ------------------------------------------------------------------------------------------
 def gen(seed, tier="quick"):
+    scn = _gen(seed)
+    # thorough tier: besides every single fault, a seeded sample of fault PAIRS (the first one may be swallowed by the leaf
+    # matcher or hit the prefix, the second lands in the work that follows)
+    scn["pairs"] = 24 if tier == "thorough" else 3
+    return scn
+
+
+def _gen(seed):
     r = rng(seed, "program")
     g = Gen(r, names=("a", "b", "c"), sizes=(0, 1, 2, 3, 4), var_names=("v", "w"), allow_sym=True, max_tokens=5,
             sym_exprs=list(SYM))
@@ -235,12 +243,23 @@ def _execute(scn):
                 for k in range(1, n + 1):
                     for exc in seams.EXC_ALL:
                         plans.append({"site": site, "k": k, "exc": exc})
+            singles = [p for p in plans if p]
+            pr = rng(scn["seed"], "pairs")
+            for _ in range(min(scn.get("pairs", 0), len(singles) * (len(singles) - 1) // 2)):
+                a, b = pr.sample(singles, 2)
+                if (a["site"], a["k"]) != (b["site"], b["k"]):
+                    plans.append([a, b])
         else:
             plans = scn["faults"] or [None]
         for p in plans:
             if p is None:
                 rec = dry
                 plan = {}
+            elif isinstance(p, list):
+                plan = {(q["site"], q["k"]): q["exc"] for q in p}
+                rec = _variant(d, scn, plan, twice=True)
+                stats.inc("double_fault_variants")
+                p = dict(p[-1], pair=p)
             else:
                 plan = {(p["site"], p["k"]): p["exc"]}
                 rec = _variant(d, scn, plan, twice=True)
@@ -315,6 +334,7 @@ def concretise(scn, res):
     """Pin the scenario to the single fault of the first violation (replay runs exactly that)."""
     s = copy.deepcopy(scn)
     for v in res["violations"]:
-        s["faults"] = [v.get("fault")]
+        f = v.get("fault")
+        s["faults"] = [f["pair"] if (f and f.get("pair")) else f]
         break
     return s
